@@ -202,6 +202,53 @@ type Accounting struct {
 	Branches, Leaves, Overflows, InlineBuckets, Buckets, BucketsWithSeq, Depth int
 	Tree                                                                       *model.Bucket
 	LeafNames                                                                  map[uint64][]string // names stored on each (non-inline) leaf page
+	// Own holds, per decoded bucket, what that bucket itself (without nested buckets) occupies
+	Own map[*model.Bucket]*BStat
+}
+
+// BStat is the space accounting of one bucket (nested buckets not included).
+type BStat struct {
+	Inline                                     bool
+	Branch, BranchOverflow, Leaf, LeafOverflow int // pages
+	Elements                                   int // leaf elements (keys and nested-bucket names)
+	BranchInuse, LeafInuse, InlineInuse        int // bytes: page header + element headers + key/value bytes
+}
+
+func (a *Accounting) own(b *model.Bucket) *BStat {
+	if a.Own == nil {
+		a.Own = map[*model.Bucket]*BStat{}
+	}
+	st := a.Own[b]
+	if st == nil {
+		st = &BStat{}
+		a.Own[b] = st
+	}
+	return st
+}
+
+// Subtree sums the accounting of bucket b and of everything nested in it; buckets and inline count buckets.
+func (a *Accounting) Subtree(b *model.Bucket) (sum BStat, buckets, inline int) {
+	if st := a.Own[b]; st != nil {
+		sum = *st
+		if st.Inline {
+			inline = 1
+		}
+	}
+	buckets = 1
+	for _, sub := range b.Sub {
+		s2, b2, i2 := a.Subtree(sub)
+		sum.Branch += s2.Branch
+		sum.BranchOverflow += s2.BranchOverflow
+		sum.Leaf += s2.Leaf
+		sum.LeafOverflow += s2.LeafOverflow
+		sum.Elements += s2.Elements
+		sum.BranchInuse += s2.BranchInuse
+		sum.LeafInuse += s2.LeafInuse
+		sum.InlineInuse += s2.InlineInuse
+		buckets += b2
+		inline += i2
+	}
+	return
 }
 
 func (a *Accounting) anom(format string, args ...any) {
@@ -418,9 +465,13 @@ func (f *File) walkPage(a *Accounting, id uint64, b *model.Bucket, lo, hi []byte
 	case FlagBranch:
 		a.Role[id] = RoleBranch
 		a.Branches++
+		a.own(b).Branch++
+		a.own(b).BranchOverflow += int(n) - 1
 	case FlagLeaf:
 		a.Role[id] = RoleLeaf
 		a.Leaves++
+		a.own(b).Leaf++
+		a.own(b).LeafOverflow += int(n) - 1
 	default:
 		a.anom("page %d reachable with invalid flags %#x", id, h.Flags)
 		a.Role[id] = RoleLeaf
@@ -470,6 +521,11 @@ func (f *File) walkBranch(a *Accounting, id uint64, pg []byte, h PageHeader, b *
 		}
 		els = append(els, el{pg[s : s+ks], child})
 	}
+	used := PageHeaderSize + cnt*BranchElemSize
+	for _, e := range els {
+		used += len(e.key)
+	}
+	a.own(b).BranchInuse += used
 	maxd := depth
 	for i, e := range els {
 		if i > 0 && bytes.Compare(els[i-1].key, e.key) >= 0 {
@@ -501,6 +557,14 @@ func (f *File) walkLeaf(a *Accounting, what string, pg []byte, h PageHeader, b *
 		return
 	}
 	var prev []byte
+	own := a.own(b)
+	own.Elements += cnt
+	if h.ID == 0 && !isRootBucket {
+		own.Inline = true
+		own.InlineInuse += PageHeaderSize + cnt*LeafElemSize
+	} else {
+		own.LeafInuse += PageHeaderSize + cnt*LeafElemSize
+	}
 	for i := 0; i < cnt; i++ {
 		eoff := PageHeaderSize + i*LeafElemSize
 		flags := le.Uint32(pg[eoff:])
@@ -514,6 +578,11 @@ func (f *File) walkLeaf(a *Accounting, what string, pg []byte, h PageHeader, b *
 		}
 		key := pg[s : s+ks]
 		val := pg[s+ks : s+ks+vs]
+		if own.Inline {
+			own.InlineInuse += ks + vs
+		} else {
+			own.LeafInuse += ks + vs
+		}
 		if i > 0 && bytes.Compare(prev, key) >= 0 {
 			a.anom("%s: key %d not greater than key %d", what, i, i-1)
 		}
